@@ -61,6 +61,16 @@ def _run(ctx):
                                ("volume", "_mix_by_volume_pairs", lambda M, dd: M / dd)):
         site = fsite(ctx, f"formulas.{helper}")
         hf = I.global_name("formulas", helper)
+        # only the ratio of the quantities matters: very small (and very large) concrete quantities
+        for scale_q in (sp.Rational(1, 10 ** 12), sp.Integer(10) ** 9):
+            f1, f2, f3 = comps()
+            rs = I.call(hf, [[(f1, 3 * scale_q), (f3, 2 * scale_q)]], {})
+            ats = I.getattr(rs, "atoms")
+            ctx.check(set(ats) == {Fe, H}, "R1", f"by {mode}: quantities 3 and 2 scaled by {float(scale_q):g} keep both components",
+                      f"atoms {sorted(map(repr, ats))}", site)
+            if set(ats) == {Fe, H}:
+                eq(ctx, "R1", f"by {mode}: quantities scaled by {float(scale_q):g} give the same proportions",
+                   ats[Fe] / a[0] * unit(M1, d[0]) * 2, ats[H] / 2 * unit(M3, d[2]) * 3, site)
         f1, f2, f3 = comps()
         r = I.call(hf, [[(f1, q[0]), (f2, q[1]), (f3, q[2])]], {})
         at = I.getattr(r, "atoms")
@@ -83,6 +93,20 @@ def _run(ctx):
                at0[Fe] / a[0] * unit(M1, d[0]) * q[2], at0[H] / 2 * unit(M3, d[2]) * q[0], site)
             eq(ctx, "R1", f"by {mode}: density with a zero-quantity component in the middle", I.getattr(r0, "density"),
                (at0[Fe] * mFe + at0[H] * mH) / (at0[Fe] * mFe / d[0] + at0[H] * mH / d[2]), site)
+        # a zero-quantity component of unknown density vanishes too (it needs no density)
+        g1, g2, g3 = comps(dens=(True, False, True))
+        rr = raises(lambda: I.call(hf, [[(g1, q[0]), (g2, sp.Integer(0)), (g3, q[2])]], {}))
+        ctx.check(rr is None, "R1", f"by {mode}: a zero-quantity component of unknown density is accepted", f"raises {rr}", site)
+        if rr is None and O not in at0 and set(at0) == {Fe, H}:
+            g1, g2, g3 = comps(dens=(True, False, True))
+            rz = I.call(hf, [[(g1, q[0]), (g2, sp.Integer(0)), (g3, q[2])]], {})
+            dz = I.getattr(rz, "density")
+            if dz is None:
+                ctx.fail("R1", f"by {mode}: density with a zero-quantity component of unknown density",
+                         "the mixture density is None although every component that is present has a density", site)
+            else:
+                eq(ctx, "R1", f"by {mode}: density with a zero-quantity component of unknown density", dz,
+                   (at0[Fe] * mFe + at0[H] * mH) / (at0[Fe] * mFe / d[0] + at0[H] * mH / d[2]), site)
         # rescaling a component's formula unit changes nothing
         f1k, f2k, f3k = comps(scale=k)
         rk = I.call(hf, [[(f1k, q[0]), (f2k, q[1]), (f3k, q[2])]], {})
@@ -104,7 +128,7 @@ def _run(ctx):
     rr = raises(lambda: I.call(I.global_name("formulas", "_mix_by_volume_pairs"), [[(f1, q[0]), (f2, q[1])]], {}))
     ctx.check(rr == "ValueError", "R1", "by volume: unknown component density raises ValueError", f"got {rr}",
               fsite(ctx, "formulas._mix_by_volume_pairs"))
-    ctx.floor("R1", 18)
+    ctx.floor("R1", 30)
 
     # ---- R2 call forms and string forms reach the same helpers ---------------------
     cg = ctx.src.callgraph()
@@ -131,11 +155,21 @@ def _run(ctx):
         r = I.call(fn, [f1, q[0], f2, q[1]], {"density": dd, "name": "mix"})
         eq(ctx, "R2", f"mix_by_{mode}(..., density=d) overrides the estimate", I.getattr(r, "density"), dd, site)
         ctx.check(I.getattr(r, "name") == "mix", "R2", f"mix_by_{mode}(..., name=) names the mixture", "name not set", site)
+        # a component that was inspected (mass, density, atoms read) and then scaled is mixed as the scaled compound
+        f1, f2, f3 = comps()
+        for attr in ("mass", "atoms", "mass_fraction", "density"):
+            I.getattr(f1, attr)
+        big = I.call(I.getattr(f1, "__rmul__"), [k], {})
+        rb = I.call(fn, [big, q[0], f2, q[1]], {})
+        eq(ctx, "R2", f"mix_by_{mode}(k*f1, q1, f2, q2) after f1.mass was read: same mass fractions as with f1",
+           I.getattr(rb, "mass_fraction")[Fe], I.getattr(rh, "mass_fraction")[Fe], site)
+        eq(ctx, "R2", f"mix_by_{mode}(k*f1, q1, f2, q2) after f1.mass was read: same density as with f1",
+           I.getattr(rb, "density"), I.getattr(rh, "density"), site)
         rr = raises(lambda: I.call(fn, [f1, q[0], f2], {}))
         ctx.check(rr == "ValueError", "R2", f"mix_by_{mode} with a missing quantity raises ValueError", f"got {rr}", site)
         rr = raises(lambda: I.call(fn, [f1, q[0]], {"bogus": 1}))
         ctx.check(rr == "TypeError", "R2", f"mix_by_{mode} with an unknown keyword raises TypeError", f"got {rr}", site)
-    ctx.floor("R2", 18)
+    ctx.floor("R2", 22)
 
     # ---- R3 parse actions ---------------------------------------------------------
     p1, p2 = sp.symbols("p1 p2", positive=True)
